@@ -69,12 +69,15 @@ AfterPre == IF cur.pre.on /\ cur.pre.dstPtr THEN Override(cur.dst0, HookWrites("
 \* nil source slices leave the destination as it was; everything else takes the plan's value
 PlanVal(p) == LET k == CHOOSE k \in Kinds : p \in DOMAIN Frag[k].assign
                   t == Frag[k].assign[p] IN
-              IF t.op = "slice" THEN (IF cur.src[t.p] = "nil" THEN AfterPre[p] ELSE cur.src[t.p])
+              IF t.op \in {"slice", "optslice"} THEN (IF cur.src[t.p] = "nil" THEN AfterPre[p] ELSE cur.src[t.p])
               ELSE IF p \in Undefined THEN AfterPre[p]
               ELSE Eval(t)
 AllAssigned == [p \in DOMAIN cur.dst0 |-> IF p \in Assigned THEN PlanVal(p) ELSE AfterPre[p]]
 Final == IF cur.post.on /\ cur.post.dstPtr THEN Override(AllAssigned, HookWrites("post")) ELSE AllAssigned
-SliceLeaves == {p \in Assigned : (LET k == CHOOSE k \in Kinds : p \in DOMAIN Frag[k].assign IN Frag[k].assign[p].op = "slice")}
+SliceLeaves == {p \in Assigned : (LET k == CHOOSE k \in Kinds : p \in DOMAIN Frag[k].assign IN Frag[k].assign[p].op \in {"slice", "optslice"})}
+\* slice leaves the function may leave alone (C16 speaks of slices that ARE copied)
+OptLeaves == {p \in Assigned : (LET k == CHOOSE k \in Kinds : p \in DOMAIN Frag[k].assign IN Frag[k].assign[p].op = "optslice")}
+SliceOK(p, seen) == seen[p] = Final[p] \/ (p \in OptLeaves /\ seen[p] = AfterPre[p])
 
 ----------------------------------------------------------------------------
 Init == TLCSet(1, 0) /\ l = 1 /\ cur = [ev |-> "none"] /\ phase = "idle" /\ done = {} /\ failed = "nil"
@@ -121,13 +124,13 @@ TEnd == /\ IsEvent("end") /\ phase \in {"body", "post"}
               /\ (On("values") => \A p \in (Assigned \ SliceLeaves) \ Undefined : E.dst[p] = Final[p])      \* C02: exactly the matched values
               /\ (On("frame")  => \A p \in DOMAIN cur.dst0 \ Assigned : E.dst[p] = Final[p])    \* C02: everything else untouched
               /\ (On("slices") => \A p \in SliceLeaves :
-                                     /\ E.dst[p] = Final[p]                                     \* C16: same length, same elements; nil stays nil
+                                     /\ SliceOK(p, E.dst)                                       \* C16: same length, same elements; nil stays nil
                                      /\ p \notin {E.shared[i] : i \in DOMAIN E.shared}))       \* C16: fresh storage
         /\ phase' = "ended" /\ UNCHANGED <<cur, done, failed>>
 
 \* C16: after the source elements were overwritten the destination still shows the copied values
 TObserve == /\ IsEvent("observe") /\ phase = "ended"
-            /\ (On("slices") /\ failed = "nil" => \A p \in SliceLeaves : E.dst[p] = Final[p])
+            /\ (On("slices") /\ failed = "nil" => \A p \in SliceLeaves : SliceOK(p, E.dst))
             /\ UNCHANGED <<cur, phase, done, failed>>
 
 Next == TBegin \/ TPre \/ TCall \/ TPost \/ TEnd \/ TObserve
